@@ -55,6 +55,9 @@ def step (st : St) (n : Nat) (ln : Line) : St × List String :=
       ++ (if delimSlash then ["COV walk.delim-slash"] else ["COV walk.delim-none"])
       ++ (if contNext then ["COV walk.cont-next"] else ["COV walk.cont-last"])
       ++ (if marker0 != [] then ["COV walk.arbitrary-marker"] else [])
+      ++ (if marker0 != [] ∧ pages.length > 1 then ["COV walk.start-after-continued"] else [])
+      ++ (if a.getD 0 "" == "v2b" then ["COV walk.start-after-resent-with-token"] else [])
+      ++ (if st.ks.length > 1024 then ["COV walk.big-directory"] else [])
       ++ (if x.uploadsInWindow then ["COV walk.uploads-in-window"] else [])
       ++ (if x.prefixHasDir then ["COV walk.prefix-has-dir"] else [])
       ++ (if x.deepKeys then ["COV walk.deep-keys"] else [])
